@@ -164,6 +164,8 @@ def run(ctx):
     R.floor("tables_behind_block_context", len(ctx_tables), 3)
     for dm in ("reorg", "clear_caches", "commit_changes"):
         T.clause_tables(R, F, dm, only_fields=ctx_tables)
+    # "block number = the height being built": the height comes from the cached chain tip, which must not outlive its blocks
+    T.clause_derived_caches_coherent(R, F)
     # controller loaders use the indexer address as sender
     for ln in ("load_brc20_mint_tx", "load_brc20_burn_tx", "load_brc20_deploy_tx"):
         lf = [f for f in F.fns.values() if f.name.endswith("brc20_controller::" + ln)]
